@@ -21,7 +21,8 @@ PROP = dict(
     rule=("a case is non-trivial when the requested expansion length is < 32 or not a multiple of 32 (or > 8160: error), when count is 0/1 "
           "on a field with L < 32, when the DST length is 0, 255 or > 255, or when the map input u is 0, +-1, a root of the exceptional "
           "polynomial of the map computed by the reference (SSWU: Z^2u^4+Zu^2; SvdW: (1-c1u^2)(1+c1u^2)), a neighbour of such a root, or a "
-          "field-boundary-lattice value; distinct = distinct (function, instantiation, inputs) hashes"),
+          "field-boundary-lattice value, or a NEAR-exceptional input constructed by solving in the reference for a u whose tested temporary "
+          "(SSWU: tv2 = Z^2u^4+Zu^2; SvdW: tv1, tv2, tv1*tv2) has all stored (Montgomery) or canonical limbs zero except one; distinct = distinct (function, instantiation, inputs) hashes"),
     assumptions=[
         "oracles (harness/internal/ref, no gnark-crypto code): RFC 9380 5.3.1 expand_message_xmd over crypto/sha256, 5.2 hash_to_field, 4.1 sgn0, "
         "6.6.2 simplified SWU and 6.6.1 Shallue-van de Woestijne in their definitional (non straight-line) form, Appendix H find_z_*, Appendix E "
@@ -48,9 +49,14 @@ PROP = dict(
         # thorough tier only: time-boxed coverage-guided native fuzzing (oracle inside the target); the quick tier runs its seed corpus in "params"
         dict(name="fuzz-expandhash", pkg="c13", run="^TestC13_NativeFuzz$", rapid=False, tiers=("thorough",), timeout=(900, 900),
              env=dict(VERIF_C13_FUZZTIME="120s"), weight=5),
+        # constructed near-exceptional inputs: the tested temporary has a single non-zero limb (every limb, stored and canonical reading)
+        dict(name="nearexc", pkg="c13", run="^TestC13_NearExceptionalSweep$", rapid=False, shards=SUITES, timeout=(900, 1800), weight=2),
     ] + _suite_jobs("map", "^TestC13_MapToCurve$", 500, 5000) + _suite_jobs("hash", "^TestC13_HashToGroup$", 150, 1500),
     mandatory_all=["u:0", "u:exceptional_root", "u:-1", "len:0", "len:1..31", "len:not_multiple_of_32", "len:>8160", "dst_len:0", "dst_len:255",
-                   "small_field_count01", "branch:x3", "branch:exc:x1"],
+                   "small_field_count01", "branch:x3", "branch:exc:x1",
+                   "u:near_exceptional", "u:coefficient_single_limb", "near_exceptional:mont", "near_exceptional:canon", "near_exceptional:top_limb"]
+                  + ["near_exceptional:limb%d" % j for j in range(12)]
+                  + ["near_exceptional:suite:" + s for s in SUITES],
 )
 
 PROP.update(
